@@ -167,6 +167,7 @@ pub struct SweepPlan {
     pub mat2: Vec<Vec<Man>>,
     pub ep_extra: Vec<Option<Man>>,
     pub ep_restrict_king: bool,
+    pub ep_restrict_bk: bool,
     pub castle_enemy: Vec<Vec<Kind>>,
     pub castle_blockers: Vec<Option<Kind>>,
     pub disamb: Vec<(Kind, usize, Option<Kind>)>,
@@ -263,13 +264,14 @@ pub fn run_plan(ctx: &Ctx, plan: &SweepPlan) -> (u64, u64) {
     if !plan.ep_extra.is_empty() {
         let extras = plan.ep_extra.clone();
         let restrict = plan.ep_restrict_king;
+        let restrict_bk = plan.ep_restrict_bk;
         add(run_family(
             ctx,
             "F-EP",
-            &format!("pushed pawn on each file, 1-2 capturers, both kings, {} extra-man options, king {}; both colours", extras.len(), if restrict { "restricted to lines through the pawns/target" } else { "anywhere" }),
+            &format!("pushed pawn on each file, 1-2 capturers, both kings, {} extra-man options, king {}{}; both colours", extras.len(), if restrict { "restricted to lines through the pawns/target" } else { "anywhere" }, if restrict_bk { " (the other king and the further man too)" } else { "" }),
             extras.len() * 8,
             &total,
-            &|i, cb| families::enumerate_ep((i % 8) as i32, extras[i / 8], restrict, cb),
+            &|i, cb| families::enumerate_ep((i % 8) as i32, extras[i / 8], restrict, restrict_bk, cb),
         ));
     }
     crosscheck(ctx, true);
@@ -324,7 +326,7 @@ pub fn sample_states(run: &Run) {
         run.sample(J::obj(vec![("family", J::s("F-REACH seed")), ("name", J::s(s.name)), ("fen", J::s(s.fen))]));
     }
     let mut n = 0;
-    families::enumerate_ep(4, Some((Color::B, Kind::B)), true, &mut |p: &Pos| {
+    families::enumerate_ep(4, Some((Color::B, Kind::B)), true, false, &mut |p: &Pos| {
         n += 1;
         if n % 50_000 == 1 {
             run.sample(J::obj(vec![("family", J::s("F-EP")), ("fen", J::s(p.to_fen()))]));
